@@ -1,6 +1,8 @@
 import GeoVerif.Model.GeodInverse
 import GeoVerif.Model.GeodInvSeries
 import GeoVerif.Proofs.GeodInvSeries
+import GeoVerif.Model.GeodInvFull
+import GeoVerif.Proofs.GeodInvFull
 import GeoVerif.Spec.RealInst
 import Mathlib.Tactic.LinearCombination
 import Mathlib.Tactic.Positivity
@@ -146,5 +148,545 @@ example : ((-1 : ℝ) ≠ 0) ∧ ((1 : ℝ) ≠ 0) ∧
     (0 : ℝ) ≤ (-1) ^ 2 * 1 ^ 2 / 4 * ((-1) ^ 2 * 1 ^ 2 / 4 + 2 * (((-1) ^ 2 + 1 ^ 2 - 1) / 6) ^ 3) := by norm_num
 
 end Astroid
+
+/-! ### The whole of `GenInverse` behind the canonicalisation (`Model/GeodInvFull.lean`)
+
+The model is kernel-parametric: `Lengths`, `InverseStart`, `Lambda12` and the area integral are a record `Kernels`.  What follows
+holds for **every** such record (hence for the series solver, whose kernels are Lean models, and for `GeodesicExact`, whose
+kernel values the correspondence takes from the implementation), or under a stated contract on the kernels. -/
+
+section Full
+open GeoVerif.GeodLine GeoVerif.GeodInvSeries GeoVerif.GeodInvFull GeoVerif.Proofs.GeodInvFull
+
+/-! #### the Newton/bisection loop, every number type (binary64 included) -/
+
+/-- **iteration budget**: the loop of `GenInverse` evaluates the kernel at most `maxit2_ + 1` times (`numit = 0 … maxit2_`), and
+    `numit ≤ maxit2_` on exit — the `numit == maxit2_` exit comes before the fuel of the model runs out. -/
+theorem loop_budget {α : Type} [RealLike α] (p : Params α) (lam : α → α → Nat → LamOut α) (sb : α) (st : LoopSt α) :
+    (loop p lam sb (p.maxit2 + 1) 0 st 0 []).numit ≤ p.maxit2 ∧
+    (loop p lam sb (p.maxit2 + 1) 0 st 0 []).iterates.length = (loop p lam sb (p.maxit2 + 1) 0 st 0 []).numit + 1 ∧
+    (loop p lam sb (p.maxit2 + 1) 0 st 0 []).iterates.length ≤ p.maxit2 + 1 := by
+  have h1 := loop_numit_le p lam sb (p.maxit2 + 1) 0 st 0 [] (by omega) (by omega)
+  have h2 := (loop_evals p lam sb (p.maxit2 + 1) 0 st 0 []).2
+  simp only [List.length_nil, Nat.sub_zero, Nat.zero_add] at h2
+  exact ⟨h1, h2, by omega⟩
+
+
+/-- the budget the library ships with since fix fe4d9c6 (F70), `maxit2_ = maxit1_ + 2·digits + 20 = 146` for binary64: at most 147
+    evaluations of `Lambda12` per inverse problem -/
+theorem loop_budget_binary64 {α : Type} [RealLike α] (g : Geod α) (eps0 : α) (lam : α → α → Nat → LamOut α) (sb : α) (st : LoopSt α) :
+    budget 53 = 146 ∧
+    (loop (paramsSeries g eps0 (budget 53)) lam sb (budget 53 + 1) 0 st 0 []).numit ≤ 146 ∧
+    (loop (paramsSeries g eps0 (budget 53)) lam sb (budget 53 + 1) 0 st 0 []).iterates.length ≤ 147 := by
+  have h := loop_budget (paramsSeries g eps0 (budget 53)) lam sb st
+  exact ⟨rfl, h.1, h.2.2⟩
+
+/-- **the exits of the loop** (`Geodesic.cpp` 374–386): `tripb`, or `|v|` below `tol0_` (`8 tol0_` after a Newton step with `|v| ≤ 16 tol0_`),
+    or the budget, or — fix 8088996 (F69) — equatorial end points at `alp1 = 90°` with `v > 0` -/
+theorem loop_exits {α : Type} [RealLike α] (p : Params α) (sb : α) (numit : Nat) (st : LoopSt α) (v : α) (h : stopNow p sb numit st v = true) :
+    st.tripb = true ∨
+    RealLike.leb ((if st.tripn then (RealLike.ofNat 8 : α) else RealLike.ofNat 1) * p.tol0) (RealLike.abs v) = false ∨ numit = p.maxit2 ∨
+    (RealLike.eqb sb (RealLike.ofNat 0) = true ∧ RealLike.eqb st.calp1 (RealLike.ofNat 0) = true ∧ RealLike.ltb (RealLike.ofNat 0) v = true) :=
+  stopNow_cases p sb numit st v h
+
+/-- the fuel parameter of the model is immaterial: more of it gives the same result -/
+theorem loop_fuel_enough {α : Type} [RealLike α] (p : Params α) (lam : α → α → Nat → LamOut α) (sb : α) (st : LoopSt α) (extra : Nat) :
+    loop p lam sb (p.maxit2 + 1 + extra) 0 st 0 [] = loop p lam sb (p.maxit2 + 1) 0 st 0 [] :=
+  loop_fuel_irrelevant p lam sb (p.maxit2 + 1) extra 0 st 0 [] (by omega) (by omega)
+
+/-- **the bracket update** (`Geodesic.cpp` 381–384): the current point, `tripn`, `tripb` are untouched; either nothing moves, or
+    `v > 0` and the *upper* end becomes the current point, or `v < 0` and the *lower* end becomes the current point -/
+theorem bracket_update {α : Type} [RealLike α] (p : Params α) (numit : Nat) (st : LoopSt α) (v : α) :
+    (updBracket p numit st v).salp1 = st.salp1 ∧ (updBracket p numit st v).calp1 = st.calp1 ∧
+    (updBracket p numit st v).tripn = st.tripn ∧ (updBracket p numit st v).tripb = st.tripb ∧
+    (((updBracket p numit st v).salp1a = st.salp1a ∧ (updBracket p numit st v).calp1a = st.calp1a ∧
+      (updBracket p numit st v).salp1b = st.salp1b ∧ (updBracket p numit st v).calp1b = st.calp1b) ∨
+     (RealLike.ltb (RealLike.ofNat 0) v = true ∧ (updBracket p numit st v).salp1b = st.salp1 ∧ (updBracket p numit st v).calp1b = st.calp1 ∧
+      (updBracket p numit st v).salp1a = st.salp1a ∧ (updBracket p numit st v).calp1a = st.calp1a) ∨
+     (RealLike.ltb v (RealLike.ofNat 0) = true ∧ (updBracket p numit st v).salp1a = st.salp1 ∧ (updBracket p numit st v).calp1a = st.calp1 ∧
+      (updBracket p numit st v).salp1b = st.salp1b ∧ (updBracket p numit st v).calp1b = st.calp1b)) :=
+  updBracket_spec p numit st v
+
+/-- one pass of the loop moves the bracket exactly as the bracket update does (neither the Newton step nor the bisection
+    touches the ends) -/
+theorem pass_moves_bracket_by_update {α : Type} [RealLike α] (p : Params α) (numit : Nat) (st : LoopSt α) (v dv : α) :
+    (step p numit st v dv).salp1a = (updBracket p numit st v).salp1a ∧ (step p numit st v dv).calp1a = (updBracket p numit st v).calp1a ∧
+    (step p numit st v dv).salp1b = (updBracket p numit st v).salp1b ∧ (step p numit st v dv).calp1b = (updBracket p numit st v).calp1b :=
+  step_ends p numit st v dv
+
+/-- **bracket invariant, any kernel**: on exit from the loop each end of the bracket is either the initial one
+    (`(tiny_, 1)` resp. `(tiny_, −1)`) or a point at which `Lambda12` was evaluated with the sign that puts the root on the other
+    side (`< 0` at the lower end, `> 0` at the upper end) -/
+theorem bracket_ends_observed {α : Type} [RealLike α] (p : Params α) (lam : α → α → Nat → LamOut α) (sb salp1 calp1 : α) :
+    EndsObserved p lam (loop p lam sb (p.maxit2 + 1) 0 (initSt p.tiny salp1 calp1) 0 []).st :=
+  loop_ends_observed p lam sb _ _ _ _ _ ⟨Or.inl ⟨rfl, rfl⟩, Or.inl ⟨rfl, rfl⟩⟩
+
+/-- **from `maxit1_` on every pass is a bisection** (no Newton step is attempted) … -/
+theorem after_maxit1_bisection {α : Type} [RealLike α] (p : Params α) (numit : Nat) (st : LoopSt α) (v dv : α) (h : p.maxit1 ≤ numit) :
+    step p numit st v dv = bisect p (updBracket p numit st v) :=
+  step_after_maxit1 p numit st v dv h
+
+/-- … and beyond `maxit1_` the end on the side of the sign of `v` is replaced by the current point unconditionally -/
+theorem after_maxit1_replace {α : Type} [RealLike α] (p : Params α) (numit : Nat) (st : LoopSt α) (v : α) (h : p.maxit1 < numit) :
+    (RealLike.ltb (RealLike.ofNat 0) v = true →
+      (updBracket p numit st v).salp1b = st.salp1 ∧ (updBracket p numit st v).calp1b = st.calp1) ∧
+    (RealLike.ltb v (RealLike.ofNat 0) = true → RealLike.ltb (RealLike.ofNat 0) v = false →
+      (updBracket p numit st v).salp1a = st.salp1 ∧ (updBracket p numit st v).calp1a = st.calp1) :=
+  ⟨updBracket_after_maxit1_pos p numit st v h, updBracket_after_maxit1_neg p numit st v h⟩
+
+/-- a Newton step is only taken while `numit < maxit1_` and the derivative is positive -/
+theorem newton_step_guard {α : Type} [RealLike α] (p : Params α) (numit : Nat) (st s : LoopSt α) (v dv : α)
+    (h : newtonTry p numit st v dv = some s) : numit < p.maxit1 ∧ RealLike.ltb (RealLike.ofNat 0) dv = true :=
+  newtonTry_some p numit st s v dv h
+
+/-! #### the loop over ℝ -/
+
+/-- **the iterates stay in `(0, π)`**: if the starting point is a unit vector with positive sine (what `InverseStart` returns) and
+    `tiny_ > 0`, then on exit the current point is again a unit vector with positive sine and both ends have positive sine — for
+    every kernel -/
+theorem iterates_in_open_interval (p : Params ℝ) (lam : ℝ → ℝ → Nat → LamOut ℝ) (sb salp1 calp1 : ℝ) (ht : 0 < p.tiny)
+    (hs : 0 < salp1) (hu : salp1 ^ 2 + calp1 ^ 2 = 1) :
+    Good (loop p lam sb (p.maxit2 + 1) 0 (initSt p.tiny salp1 calp1) 0 []).st :=
+  loop_good p lam sb _ _ _ _ _ ⟨hs, hu, ht, ht⟩
+
+/-- **the loop is a bracketing method**: if the kernel is positive only above a root and negative only below it (`ρ` is the
+    cotangent of the root; `cot` decreases on `(0, π)`), and `ρ` lies between the cotangents of the initial ends, then it lies
+    strictly between the cotangents of the ends on exit -/
+theorem bracket_contains_root (p : Params ℝ) (lam : ℝ → ℝ → Nat → LamOut ℝ) (sb ρ salp1 calp1 : ℝ) (ht : 0 < p.tiny)
+    (hs : 0 < salp1) (hu : salp1 ^ 2 + calp1 ^ 2 = 1) (hc : SignContract lam ρ) (h0 : -1 / p.tiny < ρ ∧ ρ < 1 / p.tiny) :
+    Brackets ρ (loop p lam sb (p.maxit2 + 1) 0 (initSt p.tiny salp1 calp1) 0 []).st := by
+  apply loop_brackets p lam sb ρ _ _ _ _ _ hc ⟨hs, hu, ht, ht⟩
+  show -(@OfNat.ofNat ℝ 1 RealLike.Lits.instLit) / p.tiny < ρ ∧ ρ < (@OfNat.ofNat ℝ 1 RealLike.Lits.instLit) / p.tiny
+  rw [lit_one]; exact h0
+
+/-- non-vacuity of the contract: the kernel `v = ρ − cot α₁` (increasing in `α₁`, root at `cot α₁ = ρ`) satisfies it -/
+example (ρ : ℝ) : SignContract (fun s c _ => ⟨ρ - c / s, 0, 0, 0, 0, 0, 0, 0, 0, 0, 1⟩) ρ := by
+  intro s c n _
+  constructor <;> intro h <;> simp only [] at h <;> linarith
+
+/-- up to `maxit1_` an end is only replaced by a point on its inner side -/
+theorem bracket_ends_monotone (p : Params ℝ) (numit : Nat) (st : LoopSt ℝ) (v : ℝ) (h : numit ≤ p.maxit1) :
+    (updBracket p numit st v).calp1a / (updBracket p numit st v).salp1a ≤ st.calp1a / st.salp1a ∧
+    st.calp1b / st.salp1b ≤ (updBracket p numit st v).calp1b / (updBracket p numit st v).salp1b :=
+  updBracket_monotone p numit st v h
+
+/-- **a bisection puts the new point strictly inside the bracket**: unit vector, positive sine, cotangent the mediant
+    `(calp1a + calp1b)/(salp1a + salp1b)` of the ends' -/
+theorem bisection_inside_bracket (p : Params ℝ) (st : LoopSt ℝ) (ha : 0 < st.salp1a) (hb : 0 < st.salp1b)
+    (hab : st.calp1b / st.salp1b < st.calp1a / st.salp1a) :
+    0 < (bisect p st).salp1 ∧ (bisect p st).salp1 ^ 2 + (bisect p st).calp1 ^ 2 = 1 ∧
+    (bisect p st).calp1 / (bisect p st).salp1 = (st.calp1a + st.calp1b) / (st.salp1a + st.salp1b) ∧
+    st.calp1b / st.salp1b < (bisect p st).calp1 / (bisect p st).salp1 ∧
+    (bisect p st).calp1 / (bisect p st).salp1 < st.calp1a / st.salp1a :=
+  ⟨(bisect_pos_unit p st ha hb).1, (bisect_pos_unit p st ha hb).2.1, (bisect_pos_unit p st ha hb).2.2,
+   (bisect_between p st ha hb hab).1, (bisect_between p st ha hb hab).2⟩
+
+/-- non-vacuity: the initial bracket `(tiny, 1) – (tiny, −1)` -/
+example : (0 : ℝ) < 1 / 2 ∧ (-1 : ℝ) / (1 / 2) < 1 / (1 / 2) := by norm_num
+
+/-- **a bisection halves the bracket, in the angle**: when the ends are the directions `α_a`, `α_b` (unit vectors
+    `(sin α, cos α)`, less than a half turn apart) the new point is the direction `(α_a + α_b)/2` — so each of the two halves
+    `[α_a, α]`, `[α, α_b]`, one of which is the next bracket, is half as wide -/
+theorem bisection_halves_angle (p : Params ℝ) (st : LoopSt ℝ) (A B : ℝ) (h : |A - B| < Real.pi)
+    (ha : st.salp1a = Real.sin A ∧ st.calp1a = Real.cos A) (hb : st.salp1b = Real.sin B ∧ st.calp1b = Real.cos B) :
+    (bisect p st).salp1 = Real.sin ((A + B) / 2) ∧ (bisect p st).calp1 = Real.cos ((A + B) / 2) := by
+  have := bisect_angle A B h
+  have e : ((bisect p st).salp1, (bisect p st).calp1) = norm2 ((Real.sin A + Real.sin B) / 2) ((Real.cos A + Real.cos B) / 2) := by
+    unfold bisect; simp only [lit_two, ha.1, ha.2, hb.1, hb.2]
+  rw [this] at e
+  exact ⟨congrArg Prod.fst e, congrArg Prod.snd e⟩
+
+example : |(1 : ℝ) - 2| < Real.pi := by
+  have := Real.two_le_pi; rw [abs_lt]; constructor <;> linarith
+
+/-! #### output ranges -/
+
+/-- **`0 ≤ a12 ≤ 180` for the whole function**, every branch, every kernel whose arc lengths are in `[0, π]`, for `f < 1` and the
+    `lon12 ≥ 0` the canonicalisation delivers.  (Before fix 62054f0 / F68 the equatorial branch needed `lon12 ≤ 180` *and* a non-negative
+    `AngDiff` error term, and in binary64 it did exceed 180; the clamp makes the bound unconditional.) -/
+theorem a12_range (p : Params ℝ) (k : Kernels ℝ) (β : Beta ℝ) (c : Canon ℝ) (ls sw lt : Int) (hp : 0 < p.f1)
+    (hl0 : 0 ≤ c.lon12) (hstart : k.start.sig12 ≤ Real.pi)
+    (hlam : ∀ s c n, 0 ≤ (k.lam s c n).sig12 ∧ (k.lam s c n).sig12 ≤ Real.pi) :
+    0 ≤ (genInverse p k β c ls sw lt).out.a12 ∧ (genInverse p k β c ls sw lt).out.a12 ≤ 180 :=
+  solve_a12_range p k β c hp hl0 hstart hlam
+
+/-- … in particular for the series solver, with no hypothesis on kernels: its `Lambda12` and `InverseStart` satisfy the contract -/
+theorem a12_range_series (a f tiny eps0 : ℝ) (maxit2 : Nat) (s1 c1 s2 c2 : ℝ) (c : Canon ℝ) (ls sw lt : Int) (hf : f < 1)
+    (hl0 : 0 ≤ c.lon12) :
+    0 ≤ (genInverseSeries (geodesic a f tiny eps0) eps0 maxit2 s1 c1 s2 c2 c ls sw lt).out.a12 ∧
+    (genInverseSeries (geodesic a f tiny eps0) eps0 maxit2 s1 c1 s2 c2 c ls sw lt).out.a12 ≤ 180 := by
+  unfold genInverseSeries
+  apply a12_range
+  · show 0 < (@OfNat.ofNat ℝ 1 RealLike.Lits.instLit) - f
+    rw [lit_one]; linarith
+  · exact hl0
+  · exact inverseStart_sig12 _ _ _ _ _ _ _ _ _ _ _
+  · intro s c' n; exact lambda12_sig12 _ _ _ _ _ _ _ _ _ _ _
+
+example : (1 / 298 : ℝ) < 1 ∧ (0 : ℝ) ≤ 179 := by norm_num
+
+/-- **`s12 ≥ 0` on the short-line branch** (for `b ≥ 0` and an `InverseStart` with `dnm ≥ 0`) -/
+theorem s12_nonneg_short (p : Params ℝ) (k : Kernels ℝ) (β : Beta ℝ) (c : Canon ℝ) (ls sw lt : Int)
+    (hb : (genInverse p k β c ls sw lt).sol.branch = .short) (hpb : 0 ≤ p.b) (hd : 0 ≤ k.start.dnm) :
+    0 ≤ (genInverse p k β c ls sw lt).out.s12 := by
+  have hs := solve_short p k β c hb
+  show 0 ≤ (restore ls sw lt (solve p k β c).1 _).s12
+  rw [restore_s12, hs.2]
+  exact shortLine_s12 p _ _ (by simpa [lit_zero] using hs.1) hpb hd
+
+/-- **`s12 ≥ 0` on the equatorial branch** -/
+theorem s12_nonneg_equatorial (p : Params ℝ) (k : Kernels ℝ) (β : Beta ℝ) (c : Canon ℝ) (ls sw lt : Int)
+    (hb : (genInverse p k β c ls sw lt).sol.branch = .equatorial) (ha : 0 ≤ p.a) (hl : 0 ≤ c.lon12) :
+    0 ≤ (genInverse p k β c ls sw lt).out.s12 := by
+  have hs := solve_equatorial p k β c hb
+  show 0 ≤ (restore ls sw lt (solve p k β c).1 _).s12
+  rw [restore_s12, hs.2]
+  exact equatorial_s12 p c ha hl
+
+/-- the series `InverseStart` has `dnm ≥ 0` (hypothesis of `s12_nonneg_short`) -/
+theorem series_dnm_nonneg (g : Geod ℝ) (eps0 sbet1 cbet1 dn1 sbet2 cbet2 dn2 lam12 slam12 clam12 : ℝ) :
+    0 ≤ (inverseStart g eps0 sbet1 cbet1 dn1 sbet2 cbet2 dn2 lam12 slam12 clam12).dnm :=
+  inverseStart_dnm g eps0 sbet1 cbet1 dn1 sbet2 cbet2 dn2 lam12 slam12 clam12
+
+
+/-! #### reduced latitudes: the ordering guard of fix 48445e6 (F55) -/
+
+/-- **after the guard of lines 242–252 the reduced latitudes are ordered the way `Lambda12` needs**, whatever round-off did to
+    `sincosd` and `Math::norm`: `cbet1, cbet2 > 0`; if `cbet1 < −sbet1` then `cbet1 ≤ cbet2`, else `|sbet2| ≤ −sbet1`
+    (for the canonical `sbet1 ≤ 0`) -/
+theorem reduced_latitudes_ordered (p : Params ℝ) (s1 c1 s2 c2 : ℝ) (ht : 0 < p.tiny) (hs : (reduceLat p s1 c1 s2 c2).sbet1 ≤ 0) :
+    0 < (reduceLat p s1 c1 s2 c2).cbet1 ∧ 0 < (reduceLat p s1 c1 s2 c2).cbet2 ∧
+    ((reduceLat p s1 c1 s2 c2).cbet1 < -(reduceLat p s1 c1 s2 c2).sbet1 →
+      (reduceLat p s1 c1 s2 c2).cbet1 ≤ (reduceLat p s1 c1 s2 c2).cbet2) ∧
+    (¬ (reduceLat p s1 c1 s2 c2).cbet1 < -(reduceLat p s1 c1 s2 c2).sbet1 →
+      |(reduceLat p s1 c1 s2 c2).sbet2| ≤ -(reduceLat p s1 c1 s2 c2).sbet1) :=
+  reduceLat_ordered p s1 c1 s2 c2 ht hs
+
+/-- what `Lambda12` takes the square root of when it forms `calp2` (`Geodesic.cpp` 865–870) -/
+theorem lambda12_calp2 (g : Geod ℝ) (sbet1 cbet1 dn1 sbet2 cbet2 dn2 salp1 calp1 slam120 clam120 : ℝ) :
+    (lambda12 g sbet1 cbet1 dn1 sbet2 cbet2 dn2 salp1 calp1 slam120 clam120).calp2 =
+      if !(RealLike.eqb cbet2 cbet1) || !(RealLike.eqb (RealLike.abs sbet2) (-sbet1)) then
+        RealLike.sqrt (RealLike.sq ((if RealLike.eqb sbet1 (RealLike.ofNat 0) && RealLike.eqb calp1 (RealLike.ofNat 0) then -g.tiny else calp1) * cbet1) +
+          (if RealLike.ltb cbet1 (-sbet1) then (cbet2 - cbet1) * (cbet1 + cbet2) else (sbet1 - sbet2) * (sbet1 + sbet2))) / cbet2
+      else RealLike.abs (if RealLike.eqb sbet1 (RealLike.ofNat 0) && RealLike.eqb calp1 (RealLike.ofNat 0) then -g.tiny else calp1) := rfl
+
+/-- **no square root of a negative number in `Lambda12`** (what F55 was): on the reduced latitudes that `GenInverse` forms, the
+    radicand of `calp2` is non-negative for every trial azimuth -/
+theorem lambda12_radicand_nonneg (p : Params ℝ) (s1 c1 s2 c2 calp1 : ℝ) (ht : 0 < p.tiny) (hs : (reduceLat p s1 c1 s2 c2).sbet1 ≤ 0) :
+    0 ≤ RealLike.sq (calp1 * (reduceLat p s1 c1 s2 c2).cbet1) +
+      (if RealLike.ltb (reduceLat p s1 c1 s2 c2).cbet1 (-(reduceLat p s1 c1 s2 c2).sbet1) then
+         ((reduceLat p s1 c1 s2 c2).cbet2 - (reduceLat p s1 c1 s2 c2).cbet1) * ((reduceLat p s1 c1 s2 c2).cbet1 + (reduceLat p s1 c1 s2 c2).cbet2)
+       else ((reduceLat p s1 c1 s2 c2).sbet1 - (reduceLat p s1 c1 s2 c2).sbet2) * ((reduceLat p s1 c1 s2 c2).sbet1 + (reduceLat p s1 c1 s2 c2).sbet2)) := by
+  have h := reduceLat_ordered p s1 c1 s2 c2 ht hs
+  exact radicand_nonneg _ _ _ _ calp1 h.1 h.2.1 h.2.2.1 h.2.2.2
+
+/-- non-vacuity: a southern point 1 (`sincosd` values `(−1/2, 1/2)`, any scale) has `sbet1 ≤ 0` -/
+example : (reduceLat (⟨1, 0, 1, 0, 0, 0, 1, 1, 1 / 4, 1, 1, 20, 146, 1, false⟩ : Params ℝ) (-1 / 2) (1 / 2) (1 / 4) (1 / 2)).sbet1 ≤ 0 := by
+  show (norm2 ((-1 / 2 : ℝ) * 1) (1 / 2)).1 ≤ 0
+  rw [norm2_fst]
+  apply div_nonpos_of_nonpos_of_nonneg (by norm_num) (Real.sqrt_nonneg _)
+
+/-! #### closed forms of the equatorial and meridional answers, azimuth structure -/
+
+/-- **the equatorial answer** (`Geodesic.cpp` 318–325 followed by the area part and the sign restoration), for every kernel whose
+    area integral vanishes on the equator: `s12 = a·λ12`, `m12 = b·sin(λ12/f1)`, `M12 = M21 = cos(λ12/f1)`, `a12 = min(lon12/f1, 180)`
+    (`= lon12/f1` when the cut-off test holds exactly: `equatorial_a12_exact`), `S12 = 0`, azimuths due east/west -/
+theorem equatorial_closed_form (p : Params ℝ) (k : Kernels ℝ) (β : Beta ℝ) (c : Canon ℝ) (ls sw lt : Int)
+    (hb : (genInverse p k β c ls sw lt).sol.branch = .equatorial)
+    (h1 : β.sbet1 = 0) (h2 : β.sbet2 = 0) (hc1 : 0 < β.cbet1) (hc2 : 0 < β.cbet2) (harea : k.area 1 0 1 0 = 0) :
+    (genInverse p k β c ls sw lt).out.s12 = p.a * (c.lon12 * degree) ∧
+    (genInverse p k β c ls sw lt).out.m12 = p.b * Real.sin (c.lon12 * degree / p.f1) ∧
+    (genInverse p k β c ls sw lt).out.M12 = Real.cos (c.lon12 * degree / p.f1) ∧
+    (genInverse p k β c ls sw lt).out.M21 = Real.cos (c.lon12 * degree / p.f1) ∧
+    (genInverse p k β c ls sw lt).out.a12 = min (c.lon12 / p.f1) 180 ∧
+    (genInverse p k β c ls sw lt).out.S12 = 0 ∧
+    (genInverse p k β c ls sw lt).out.calp1 = 0 ∧ (genInverse p k β c ls sw lt).out.calp2 = 0 ∧
+    (genInverse p k β c ls sw lt).out.salp1 = (if sw * ls < 0 then -1 else 1) ∧
+    (genInverse p k β c ls sw lt).out.salp2 = (if sw * ls < 0 then -1 else 1) := by
+  have hs := (solve_equatorial p k β c hb).2
+  have hS : areaS12 p k β (solve p k β c).1 ls sw lt = 0 := by
+    rw [hs]; exact areaS12_equatorial p k β _ _ ls sw lt h1 h2 hc1 hc2 harea
+  have hr := restore_equatorial p c.lon12 (lam12Of c) ls sw lt (areaS12 p k β (solve p k β c).1 ls sw lt)
+  rw [← hs] at hr
+  exact ⟨hr.1, hr.2.1, hr.2.2.1, hr.2.2.2.1, hr.2.2.2.2.1, hS, hr.2.2.2.2.2.1, hr.2.2.2.2.2.2.1, hr.2.2.2.2.2.2.2.1,
+    hr.2.2.2.2.2.2.2.2⟩
+
+
+/-- on the equatorial branch the clamp of fix 62054f0 is inactive when the cut-off test `lon12s ≥ f·180` holds exactly (`lon12 ≤ 180`,
+    `AngDiff` error term `≥ 0`): `a12 = lon12/f1` -/
+theorem equatorial_a12_exact (p : Params ℝ) (k : Kernels ℝ) (β : Beta ℝ) (c : Canon ℝ) (ls sw lt : Int)
+    (hb : (genInverse p k β c ls sw lt).sol.branch = .equatorial) (hf1 : p.f1 = 1 - p.f) (hf : p.f < 1)
+    (hl0 : 0 ≤ c.lon12) (hl1 : c.lon12 ≤ 180) (he : 0 ≤ c.lon12e) :
+    (genInverse p k β c ls sw lt).out.a12 = c.lon12 / p.f1 := by
+  have hs := solve_equatorial p k β c hb
+  show (solve p k β c).1.a12 = _
+  rw [hs.2]
+  exact equatorial_a12_unclamped p β c hf1 hf hl0 hl1 he hs.1
+
+/-- **`a12 ≤ 180` on the equatorial branch in binary64** (what F68 violated): in every number type whose `<` is irreflexive at 180 —
+    binary64 and ℝ — the equatorial answer never compares greater than 180, whatever the cut-off test and the division did; and a
+    quotient that does not compare greater than 180 (a NaN included) is returned unchanged -/
+theorem equatorial_a12_le_180 {α : Type} [RealLike α] (p : Params α) (k : Kernels α) (β : Beta α) (c : Canon α) (ls sw lt : Int)
+    (hb : (genInverse p k β c ls sw lt).sol.branch = .equatorial)
+    (hirr : RealLike.ltb (RealLike.ofNat 180 : α) (RealLike.ofNat 180) = false) :
+    RealLike.ltb (RealLike.ofNat 180 : α) (genInverse p k β c ls sw lt).out.a12 = false ∧
+    (RealLike.ltb (RealLike.ofNat 180 : α) (c.lon12 / p.f1) = false → (genInverse p k β c ls sw lt).out.a12 = c.lon12 / p.f1) := by
+  have hs := solve_equatorial p k β c hb
+  have e : (genInverse p k β c ls sw lt).out.a12 = clamp180 (c.lon12 / p.f1) := by
+    show (solve p k β c).1.a12 = _
+    rw [hs.2]; rfl
+  rw [e]
+  exact ⟨clamp180_le _ hirr, clamp180_passes _⟩
+
+/-- non-vacuity of the irreflexivity hypothesis at ℝ -/
+example : RealLike.ltb (RealLike.ofNat 180 : ℝ) (RealLike.ofNat 180) = false := by simp [ofNat_real]
+
+/-- the series solver's area integral does vanish on the equator (hypothesis `harea` above) -/
+theorem series_area_equatorial (g : Geod ℝ) (β : Beta ℝ) (h1 : β.sbet1 = 0) : areaSeries g β 1 0 1 0 = 0 :=
+  areaSeries_equatorial g β h1
+
+/-- **the meridional answer**: when the meridional branch answers, the end points are on a meridian (`lat1 = −90` or
+    `sin λ12 = 0`), the candidate was accepted, the canonical azimuths are `(sin λ12, cos λ12)` at point 1 and due north at point 2,
+    `σ12 = atan2(max(0, …), …)` is the difference of the arcs `tan σ1 = sbet1/(cos λ12 cbet1)`, `tan σ2 = sbet2/cbet2`, and the
+    lengths are `b` × the `Lengths` kernel at these arcs, or `0` when the short-line guard fired -/
+theorem meridional_closed_form (p : Params ℝ) (k : Kernels ℝ) (β : Beta ℝ) (c : Canon ℝ) (ls sw lt : Int)
+    (hb : (genInverse p k β c ls sw lt).sol.branch = .meridional) :
+    isMeridian c = true ∧ (meridional p k β c.slam12 c.clam12).accepted = true ∧
+    (genInverse p k β c ls sw lt).sol.salp1 = c.slam12 ∧ (genInverse p k β c ls sw lt).sol.calp1 = c.clam12 ∧
+    (genInverse p k β c ls sw lt).sol.salp2 = 0 ∧ (genInverse p k β c ls sw lt).sol.calp2 = 1 ∧
+    (meridional p k β c.slam12 c.clam12).sig12c =
+      RealLike.atan2 (max 0 (c.clam12 * β.cbet1 * β.sbet2 - β.sbet1 * β.cbet2)) (c.clam12 * β.cbet1 * β.cbet2 + β.sbet1 * β.sbet2) ∧
+    (genInverse p k β c ls sw lt).out.s12 =
+      (if (meridional p k β c.slam12 c.clam12).zeroed then 0
+       else (k.lenMerid (meridional p k β c.slam12 c.clam12).sig12c β.sbet1 (c.clam12 * β.cbet1) β.sbet2 β.cbet2).s12b) * p.b ∧
+    (genInverse p k β c ls sw lt).out.m12 =
+      (if (meridional p k β c.slam12 c.clam12).zeroed then 0
+       else (k.lenMerid (meridional p k β c.slam12 c.clam12).sig12c β.sbet1 (c.clam12 * β.cbet1) β.sbet2 β.cbet2).m12b) * p.b ∧
+    (genInverse p k β c ls sw lt).out.a12 =
+      (if (meridional p k β c.slam12 c.clam12).zeroed then 0 else (meridional p k β c.slam12 c.clam12).sig12c) / degree := by
+  have hs := solve_meridional p k β c hb
+  have hf := meridional_fields p k β c.slam12 c.clam12
+  have e : (genInverse p k β c ls sw lt).sol = (meridional p k β c.slam12 c.clam12).sol := hs.2.2
+  refine ⟨hs.1, hs.2.1, ?_, ?_, ?_, ?_, meridional_sig12c_eq p k β _ _, ?_, ?_, ?_⟩
+  · rw [e]; exact hf.1
+  · rw [e]; exact hf.2.1
+  · rw [e]; exact hf.2.2.1
+  · rw [e]; exact hf.2.2.2.1
+  · show (restore ls sw lt (solve p k β c).1 _).s12 = _
+    rw [restore_s12, hs.2.2]; exact hf.2.2.2.2.1
+  · show (restore ls sw lt (solve p k β c).1 _).m12 = _
+    rw [restore_m12, hs.2.2]; exact hf.2.2.2.2.2
+  · show (solve p k β c).1.a12 = _
+    rw [hs.2.2]; exact meridional_a12_eq p k β _ _
+
+/-- **azimuths on the meridional branch**: the azimuth at the point that was canonical point 2 is exactly `0` or `180`
+    (`±180` cannot be told apart over ℝ) … -/
+theorem meridional_azimuth_far (p : Params ℝ) (k : Kernels ℝ) (β : Beta ℝ) (c : Canon ℝ) (ls sw lt : Int)
+    (hb : (genInverse p k β c ls sw lt).sol.branch = .meridional) :
+    (0 ≤ sw → (genInverse p k β c ls sw lt).out.salp2 = 0 ∧
+      ((genInverse p k β c ls sw lt).azi2 = 0 ∨ (genInverse p k β c ls sw lt).azi2 = 180)) ∧
+    (sw < 0 → (genInverse p k β c ls sw lt).out.salp1 = 0 ∧
+      ((genInverse p k β c ls sw lt).azi1 = 0 ∨ (genInverse p k β c ls sw lt).azi1 = 180)) := by
+  have hm := meridional_closed_form p k β c ls sw lt hb
+  have h2 : (solve p k β c).1.salp2 = 0 := hm.2.2.2.2.1
+  have h3 : (solve p k β c).1.calp2 = 1 := hm.2.2.2.2.2.1
+  constructor
+  · intro hsw
+    have hn : ¬ sw < 0 := not_lt.mpr hsw
+    have es : (genInverse p k β c ls sw lt).out.salp2 = GeodInvFull.mulSign (sw * ls) (solve p k β c).1.salp2 := by
+      show GeodInvFull.mulSign (sw * ls) (if sw < 0 then _ else _) = _; rw [if_neg hn]
+    have ec : (genInverse p k β c ls sw lt).out.calp2 = GeodInvFull.mulSign (sw * lt) (solve p k β c).1.calp2 := by
+      show GeodInvFull.mulSign (sw * lt) (if sw < 0 then _ else _) = _; rw [if_neg hn]
+    have e0 : (genInverse p k β c ls sw lt).out.salp2 = 0 := by rw [es, h2]; exact mulSign_zero _
+    refine ⟨e0, ?_⟩
+    have ha : (genInverse p k β c ls sw lt).azi2 =
+        atan2d (genInverse p k β c ls sw lt).out.salp2 (genInverse p k β c ls sw lt).out.calp2 := rfl
+    rw [ha, e0, ec, h3]
+    exact atan2d_zero_pm_one _ (mulSign_pm_one _ 1 (Or.inl rfl))
+  · intro hsw
+    have es : (genInverse p k β c ls sw lt).out.salp1 = GeodInvFull.mulSign (sw * ls) (solve p k β c).1.salp2 := by
+      show GeodInvFull.mulSign (sw * ls) (if sw < 0 then _ else _) = _; rw [if_pos hsw]
+    have ec : (genInverse p k β c ls sw lt).out.calp1 = GeodInvFull.mulSign (sw * lt) (solve p k β c).1.calp2 := by
+      show GeodInvFull.mulSign (sw * lt) (if sw < 0 then _ else _) = _; rw [if_pos hsw]
+    have e0 : (genInverse p k β c ls sw lt).out.salp1 = 0 := by rw [es, h2]; exact mulSign_zero _
+    refine ⟨e0, ?_⟩
+    have ha : (genInverse p k β c ls sw lt).azi1 =
+        atan2d (genInverse p k β c ls sw lt).out.salp1 (genInverse p k β c ls sw lt).out.calp1 := rfl
+    rw [ha, e0, ec, h3]
+    exact atan2d_zero_pm_one _ (mulSign_pm_one _ 1 (Or.inl rfl))
+
+/-- … and when the points are on a common meridian proper (`sin λ12 = 0`, so `cos λ12 = ±1`: longitude difference 0 or 180) both
+    azimuths are exactly `0` or `180` -/
+theorem meridional_azimuths (p : Params ℝ) (k : Kernels ℝ) (β : Beta ℝ) (c : Canon ℝ) (ls sw lt : Int)
+    (hb : (genInverse p k β c ls sw lt).sol.branch = .meridional) (hsl : c.slam12 = 0) (hcl : c.clam12 = 1 ∨ c.clam12 = -1) :
+    ((genInverse p k β c ls sw lt).azi1 = 0 ∨ (genInverse p k β c ls sw lt).azi1 = 180) ∧
+    ((genInverse p k β c ls sw lt).azi2 = 0 ∨ (genInverse p k β c ls sw lt).azi2 = 180) := by
+  have hm := meridional_closed_form p k β c ls sw lt hb
+  have h0 : (solve p k β c).1.salp1 = 0 := by rw [← hsl]; exact hm.2.2.1
+  have h1 : (solve p k β c).1.calp1 = c.clam12 := hm.2.2.2.1
+  have h2 : (solve p k β c).1.salp2 = 0 := hm.2.2.2.2.1
+  have h3 : (solve p k β c).1.calp2 = 1 := hm.2.2.2.2.2.1
+  have hfar := meridional_azimuth_far p k β c ls sw lt hb
+  by_cases hsw : sw < 0
+  · refine ⟨(hfar.2 hsw).2, ?_⟩
+    have es : (genInverse p k β c ls sw lt).out.salp2 = GeodInvFull.mulSign (sw * ls) (solve p k β c).1.salp1 := by
+      show GeodInvFull.mulSign (sw * ls) (if sw < 0 then _ else _) = _; rw [if_pos hsw]
+    have ec : (genInverse p k β c ls sw lt).out.calp2 = GeodInvFull.mulSign (sw * lt) (solve p k β c).1.calp1 := by
+      show GeodInvFull.mulSign (sw * lt) (if sw < 0 then _ else _) = _; rw [if_pos hsw]
+    have ha : (genInverse p k β c ls sw lt).azi2 =
+        atan2d (genInverse p k β c ls sw lt).out.salp2 (genInverse p k β c ls sw lt).out.calp2 := rfl
+    rw [ha, es, ec, h0, h1, mulSign_zero]
+    exact atan2d_zero_pm_one _ (mulSign_pm_one _ _ hcl)
+  · refine ⟨?_, (hfar.1 (not_lt.mp hsw)).2⟩
+    have es : (genInverse p k β c ls sw lt).out.salp1 = GeodInvFull.mulSign (sw * ls) (solve p k β c).1.salp1 := by
+      show GeodInvFull.mulSign (sw * ls) (if sw < 0 then _ else _) = _; rw [if_neg hsw]
+    have ec : (genInverse p k β c ls sw lt).out.calp1 = GeodInvFull.mulSign (sw * lt) (solve p k β c).1.calp1 := by
+      show GeodInvFull.mulSign (sw * lt) (if sw < 0 then _ else _) = _; rw [if_neg hsw]
+    have ha : (genInverse p k β c ls sw lt).azi1 =
+        atan2d (genInverse p k β c ls sw lt).out.salp1 (genInverse p k β c ls sw lt).out.calp1 := rfl
+    rw [ha, es, ec, h0, h1, mulSign_zero]
+    exact atan2d_zero_pm_one _ (mulSign_pm_one _ _ hcl)
+
+/-! #### the symmetry laws for the whole function
+
+`uncanon_exchange`, `uncanon_equator`, `uncanon_meridian` above are about the tail of `GenInverse` over binary64 for an arbitrary
+core.  Here the core is the model of the rest of the function; over ℝ negation is exact, so the laws read as equalities. -/
+
+/-- **exchange of the end points** (`swapp ↦ −swapp` on the same canonical problem): `s12`, `m12`, `a12` unchanged, azimuth vectors
+    exchanged and reversed, `M12 ↔ M21`, `S12` negated — for every kernel -/
+theorem full_exchange (p : Params ℝ) (k : Kernels ℝ) (β : Beta ℝ) (c : Canon ℝ) (ls sw lt : Int) (hls : Sign ls) (hsw : Sign sw)
+    (hlt : Sign lt) :
+    (genInverse p k β c ls (-sw) lt).out.s12 = (genInverse p k β c ls sw lt).out.s12 ∧
+    (genInverse p k β c ls (-sw) lt).out.m12 = (genInverse p k β c ls sw lt).out.m12 ∧
+    (genInverse p k β c ls (-sw) lt).out.a12 = (genInverse p k β c ls sw lt).out.a12 ∧
+    (genInverse p k β c ls (-sw) lt).out.salp1 = -(genInverse p k β c ls sw lt).out.salp2 ∧
+    (genInverse p k β c ls (-sw) lt).out.calp1 = -(genInverse p k β c ls sw lt).out.calp2 ∧
+    (genInverse p k β c ls (-sw) lt).out.salp2 = -(genInverse p k β c ls sw lt).out.salp1 ∧
+    (genInverse p k β c ls (-sw) lt).out.calp2 = -(genInverse p k β c ls sw lt).out.calp1 ∧
+    (genInverse p k β c ls (-sw) lt).out.M12 = (genInverse p k β c ls sw lt).out.M21 ∧
+    (genInverse p k β c ls (-sw) lt).out.M21 = (genInverse p k β c ls sw lt).out.M12 ∧
+    (genInverse p k β c ls (-sw) lt).out.S12 = -(genInverse p k β c ls sw lt).out.S12 := by
+  rcases hls with rfl | rfl <;> rcases hsw with rfl | rfl <;> rcases hlt with rfl | rfl <;>
+    simp [genInverse, restore, areaS12, mulSign_real, lit_zero]
+
+/-- **reflection in the equator** (`latsign ↦ −latsign`): cosines of the azimuths negated (`azi ↦ 180 − azi`), `S12` negated -/
+theorem full_equator (p : Params ℝ) (k : Kernels ℝ) (β : Beta ℝ) (c : Canon ℝ) (ls sw lt : Int) (hls : Sign ls) (hsw : Sign sw)
+    (hlt : Sign lt) :
+    (genInverse p k β c ls sw (-lt)).out.s12 = (genInverse p k β c ls sw lt).out.s12 ∧
+    (genInverse p k β c ls sw (-lt)).out.m12 = (genInverse p k β c ls sw lt).out.m12 ∧
+    (genInverse p k β c ls sw (-lt)).out.a12 = (genInverse p k β c ls sw lt).out.a12 ∧
+    (genInverse p k β c ls sw (-lt)).out.M12 = (genInverse p k β c ls sw lt).out.M12 ∧
+    (genInverse p k β c ls sw (-lt)).out.M21 = (genInverse p k β c ls sw lt).out.M21 ∧
+    (genInverse p k β c ls sw (-lt)).out.salp1 = (genInverse p k β c ls sw lt).out.salp1 ∧
+    (genInverse p k β c ls sw (-lt)).out.calp1 = -(genInverse p k β c ls sw lt).out.calp1 ∧
+    (genInverse p k β c ls sw (-lt)).out.salp2 = (genInverse p k β c ls sw lt).out.salp2 ∧
+    (genInverse p k β c ls sw (-lt)).out.calp2 = -(genInverse p k β c ls sw lt).out.calp2 ∧
+    (genInverse p k β c ls sw (-lt)).out.S12 = -(genInverse p k β c ls sw lt).out.S12 := by
+  rcases hls with rfl | rfl <;> rcases hsw with rfl | rfl <;> rcases hlt with rfl | rfl <;>
+    simp [genInverse, restore, areaS12, mulSign_real, lit_zero]
+
+/-- **reflection in a meridian** (`lonsign ↦ −lonsign`): sines of the azimuths negated (`azi ↦ −azi`), `S12` negated -/
+theorem full_meridian (p : Params ℝ) (k : Kernels ℝ) (β : Beta ℝ) (c : Canon ℝ) (ls sw lt : Int) (hls : Sign ls) (hsw : Sign sw)
+    (hlt : Sign lt) :
+    (genInverse p k β c (-ls) sw lt).out.s12 = (genInverse p k β c ls sw lt).out.s12 ∧
+    (genInverse p k β c (-ls) sw lt).out.m12 = (genInverse p k β c ls sw lt).out.m12 ∧
+    (genInverse p k β c (-ls) sw lt).out.a12 = (genInverse p k β c ls sw lt).out.a12 ∧
+    (genInverse p k β c (-ls) sw lt).out.M12 = (genInverse p k β c ls sw lt).out.M12 ∧
+    (genInverse p k β c (-ls) sw lt).out.M21 = (genInverse p k β c ls sw lt).out.M21 ∧
+    (genInverse p k β c (-ls) sw lt).out.salp1 = -(genInverse p k β c ls sw lt).out.salp1 ∧
+    (genInverse p k β c (-ls) sw lt).out.calp1 = (genInverse p k β c ls sw lt).out.calp1 ∧
+    (genInverse p k β c (-ls) sw lt).out.salp2 = -(genInverse p k β c ls sw lt).out.salp2 ∧
+    (genInverse p k β c (-ls) sw lt).out.calp2 = (genInverse p k β c ls sw lt).out.calp2 ∧
+    (genInverse p k β c (-ls) sw lt).out.S12 = -(genInverse p k β c ls sw lt).out.S12 := by
+  rcases hls with rfl | rfl <;> rcases hsw with rfl | rfl <;> rcases hlt with rfl | rfl <;>
+    simp [genInverse, restore, areaS12, mulSign_real, lit_zero]
+
+/-- the same flags leave the branch, the iteration count and every canonical quantity alone: `solve` does not see them -/
+theorem flags_do_not_reach_the_solver (p : Params ℝ) (k : Kernels ℝ) (β : Beta ℝ) (c : Canon ℝ) (ls sw lt ls' sw' lt' : Int) :
+    (genInverse p k β c ls sw lt).sol = (genInverse p k β c ls' sw' lt').sol := rfl
+
+
+/-- non-vacuity of `equatorial_closed_form`, `s12_nonneg_equatorial`: on a sphere two equatorial points 90° apart are answered by the
+    equatorial branch, whatever the kernels -/
+example (k : Kernels ℝ) :
+    (genInverse ⟨1, 0, 1, 0, 0, 0, 1, 1, 1, 1, 1, 20, 146, 1, false⟩ k ⟨0, 1, 0, 1, 1, 1⟩ ⟨0, 90, 0, 1, 0⟩ 1 1 1).sol.branch = .equatorial := by
+  have h : (solve ⟨1, 0, 1, 0, 0, 0, 1, 1, 1, 1, 1, 20, 146, 1, false⟩ k ⟨0, 1, 0, 1, 1, 1⟩ ⟨0, 90, 0, 1, 0⟩).1 =
+      equatorial ⟨1, 0, 1, 0, 0, 0, 1, 1, 1, 1, 1, 20, 146, 1, false⟩ 90 (lam12Of ⟨0, 90, 0, 1, 0⟩) := by
+    unfold solve isMeridian equatorialTest
+    have h1 : ¬ ((0 : ℝ) = -(@OfNat.ofNat ℝ 90 RealLike.Lits.instLit)) := by rw [lit_real]; norm_num
+    have h2 : ¬ ((1 : ℝ) = (@OfNat.ofNat ℝ 0 RealLike.Lits.instLit)) := by rw [lit_zero]; norm_num
+    simp [h1, lit_zero]
+  show (solve _ k _ _).1.branch = _
+  rw [h]; rfl
+
+/-- non-vacuity of `meridional_closed_form`, `meridional_azimuths`: two points on the meridian `λ12 = 0` with a `Lengths` kernel that
+    returns `m12 = 0` are answered by the meridional branch -/
+example (st : StartOut ℝ) (lam : ℝ → ℝ → Nat → LamOut ℝ) (lf : LamOut ℝ → LenOut ℝ) (ar : ℝ → ℝ → ℝ → ℝ → ℝ) :
+    (genInverse ⟨1, 0, 1, 0, 0, 0, 1, 1, 1, 1, 1, 20, 146, 1, false⟩ ⟨fun _ _ _ _ _ => ⟨0, 0, 1, 1⟩, st, lam, lf, ar⟩
+      ⟨-1 / 2, 1 / 2, 0, 1, 1, 1⟩ ⟨-30, 0, 0, 0, 1⟩ 1 1 1).sol.branch = .meridional := by
+  have h : (solve ⟨1, 0, 1, 0, 0, 0, 1, 1, 1, 1, 1, 20, 146, 1, false⟩ ⟨fun _ _ _ _ _ => ⟨0, 0, 1, 1⟩, st, lam, lf, ar⟩
+      ⟨-1 / 2, 1 / 2, 0, 1, 1, 1⟩ ⟨-30, 0, 0, 0, 1⟩).1 =
+      (meridional ⟨1, 0, 1, 0, 0, 0, 1, 1, 1, 1, 1, 20, 146, 1, false⟩ ⟨fun _ _ _ _ _ => ⟨0, 0, 1, 1⟩, st, lam, lf, ar⟩
+        ⟨-1 / 2, 1 / 2, 0, 1, 1, 1⟩ 0 1).sol := by
+    unfold solve isMeridian
+    have hm : (RealLike.eqb (-30 : ℝ) (-(@OfNat.ofNat ℝ 90 RealLike.Lits.instLit)) ||
+        RealLike.eqb (0 : ℝ) (@OfNat.ofNat ℝ 0 RealLike.Lits.instLit)) = true := by rw [lit_zero]; simp
+    have ha : (meridional ⟨1, 0, 1, 0, 0, 0, 1, 1, 1, 1, 1, 20, 146, 1, false⟩ ⟨fun _ _ _ _ _ => ⟨0, 0, 1, 1⟩, st, lam, lf, ar⟩
+        ⟨-1 / 2, 1 / 2, 0, 1, 1, 1⟩ (0 : ℝ) 1).accepted = true := by
+      show (RealLike.ltb _ _ || RealLike.leb (@OfNat.ofNat ℝ 0 RealLike.Lits.instLit) (0 : ℝ)) = true
+      rw [lit_zero]; simp
+    simp only [hm, ↓reduceIte, ha]
+  show (solve _ _ _ _).1.branch = _
+  rw [h]; rfl
+
+/-! #### the binary64 laws, instantiated
+
+The laws `uncanon_exchange`, `uncanon_equator`, `uncanon_meridian` hold over the exact binary64 model for *every* core.  The
+following definition is the full series model executed in binary64 as such a core (the `sincosd` kernels by libm), and the three
+instantiations. -/
+
+/-- the series solver of `Model/GeodInvFull.lean` on the canonical problem, in binary64, as a core of the wrapper of
+    `Model/GeodInverse.lean` -/
+def seriesCoreF64 (a f : Float) (k : GeodInverse.Canon) : Core :=
+  let eps0 : Float := 2.220446049250313e-16
+  let g := geodesic a f (Float.sqrt 2.2250738585072014e-308) eps0
+  let sc (x : Float) : Float × Float := (Float.sin (x * (degree : Float)), Float.cos (x * (degree : Float)))
+  let lon12 := k.lon12.toFloat
+  let lon12e := k.lon12s.toFloat
+  let sl := sc (lon12 + lon12e)
+  let b1 := sc k.lat1.toFloat
+  let b2 := sc k.lat2.toFloat
+  let r := genInverseSeries g eps0 (budget 53) b1.1 b1.2 b2.1 b2.2 ⟨k.lat1.toFloat, lon12, lon12e, sl.1, sl.2⟩ 1 1 1
+  let o := r.out
+  ⟨F64.ofFloat o.s12, F64.ofFloat o.salp1, F64.ofFloat o.calp1, F64.ofFloat o.salp2, F64.ofFloat o.calp2, F64.ofFloat o.m12,
+   F64.ofFloat o.M12, F64.ofFloat o.M21, F64.ofFloat o.S12, F64.ofFloat o.a12⟩
+
+/-- exchange of the end points for the whole series solver in binary64 -/
+theorem series_f64_exchange (a f : Float) (k : GeodInverse.Canon) (hls : Sign k.lonsign) (hsw : Sign k.swapp) (hlt : Sign k.latsign) :
+    let r := uncanon k.lonsign k.swapp k.latsign (seriesCoreF64 a f k)
+    let r' := uncanon k.lonsign (-k.swapp) k.latsign (seriesCoreF64 a f k)
+    r'.s12 = r.s12 ∧ r'.m12 = r.m12 ∧ r'.a12 = r.a12 ∧
+    r'.salp1 = F64.neg r.salp2 ∧ r'.calp1 = F64.neg r.calp2 ∧ r'.salp2 = F64.neg r.salp1 ∧ r'.calp2 = F64.neg r.calp1 ∧
+    r'.M12 = r.M21 ∧ r'.M21 = r.M12 ∧ r'.S12 = F64.neg r.S12 :=
+  uncanon_exchange k.lonsign k.swapp k.latsign hls hsw hlt (seriesCoreF64 a f k)
+
+/-- reflection in the equator for the whole series solver in binary64 -/
+theorem series_f64_equator (a f : Float) (k : GeodInverse.Canon) (hls : Sign k.lonsign) (hsw : Sign k.swapp) (hlt : Sign k.latsign) :
+    let r := uncanon k.lonsign k.swapp k.latsign (seriesCoreF64 a f k)
+    let r' := uncanon k.lonsign k.swapp (-k.latsign) (seriesCoreF64 a f k)
+    r'.s12 = r.s12 ∧ r'.m12 = r.m12 ∧ r'.M12 = r.M12 ∧ r'.M21 = r.M21 ∧
+    r'.salp1 = r.salp1 ∧ r'.calp1 = F64.neg r.calp1 ∧ r'.salp2 = r.salp2 ∧ r'.calp2 = F64.neg r.calp2 ∧ r'.S12 = F64.neg r.S12 :=
+  uncanon_equator k.lonsign k.swapp k.latsign hls hsw hlt (seriesCoreF64 a f k)
+
+/-- reflection in a meridian for the whole series solver in binary64 -/
+theorem series_f64_meridian (a f : Float) (k : GeodInverse.Canon) (hls : Sign k.lonsign) (hsw : Sign k.swapp) (hlt : Sign k.latsign) :
+    let r := uncanon k.lonsign k.swapp k.latsign (seriesCoreF64 a f k)
+    let r' := uncanon (-k.lonsign) k.swapp k.latsign (seriesCoreF64 a f k)
+    r'.s12 = r.s12 ∧ r'.m12 = r.m12 ∧ r'.M12 = r.M12 ∧ r'.M21 = r.M21 ∧
+    r'.salp1 = F64.neg r.salp1 ∧ r'.calp1 = r.calp1 ∧ r'.salp2 = F64.neg r.salp2 ∧ r'.calp2 = r.calp2 ∧ r'.S12 = F64.neg r.S12 :=
+  uncanon_meridian k.lonsign k.swapp k.latsign hls hsw hlt (seriesCoreF64 a f k)
+
+
+end Full
 
 end GeoVerif.Props.C02
